@@ -119,7 +119,8 @@ def check_case(case):
         e = case["expr"]
         validate_expr(e)
         try:
-            exp, mag = pddl.ev_mag(e, ENV, st)
+            # (on the floats the library parses the constants to: g - 0.00005 is exactly zero when g holds that float)
+            exp, mag = pddl.ev_mag(floatify(e), ENV, st)
         except pddl.Undefined:
             res.skipped = "division-by-zero"
             return res
@@ -225,7 +226,7 @@ def check_case(case):
         if isinstance(target, str) or target[0] in pddl.NUM_OPS:
             raise pddl.Invalid("target must be a fluent")
         try:
-            exp = pddl.successor(["and", [aop, target, e]], ENV, st, world)
+            exp = pddl.successor(["and", [aop, target, floatify(e)]], ENV, st, world)
         except pddl.Undefined:
             res.skipped = "division-by-zero"
             return res
